@@ -50,7 +50,16 @@ func (fr *Frame) oblige(kind, label, goal string, props []string, pos token.Pos,
 }
 
 func (fr *Frame) wantSafety(k string) bool {
-	return fr.top.contract != nil && fr.top.contract.Safety[k]
+	ct := fr.top.contract
+	if ct == nil {
+		return false
+	}
+	if k == "index" && ct.Opts["nosafety"] == "" {
+		// index / slice bounds are checked in every function under contract: a bounds panic is
+		// never an acceptable way to satisfy a postcondition
+		return true
+	}
+	return ct.Safety[k]
 }
 
 func (fr *Frame) freshRef(hint string) string {
